@@ -157,6 +157,12 @@ impl Ctx {
             if i >= MAX_REPLAYS {
                 continue;
             }
+            if self.replaying {
+                // a replay re-reports through the same oracle; it must not overwrite replay files
+                println!("VIOLATION property={} replay=(the replayed case reproduces)", self.prop);
+                println!("  signature={} :: {}", f.signature, f.summary.chars().take(400).collect::<String>());
+                continue;
+            }
             let _ = std::fs::create_dir_all(&dir);
             let path = dir.join(format!("{}-{:03}.json", self.tier.name(), i));
             let body = json!({
